@@ -226,6 +226,18 @@ func badLiterals(k ref.Kind) [][2]string {
 		add("ascii/non-ascii-mixed", `"ab`+"\u00a0"+`cd"`)
 		add("ascii/invalid-utf8", "\"a\xffb\"")
 		add("ascii/bare-prefix", "0x")
+	}
+	// a based literal whose digits leave the base is one malformed number, not two numbers
+	if k.IsInt() || k.IsUint() || k == ref.B || k == ref.A || k.IsFloat() {
+		for _, t := range []string{"0b12", "0b102", "0B13", "0b19", "0o78", "0o19", "0O8", "0o7a", "0b1a", "0x1G", "0x1g", "0b1.0", "0o7.5", "1_0", "0b1_0", "12abc", "1x", "0b12e1"} {
+			add("digit-outside-the-base/"+t, t)
+		}
+		if k.IsInt() || k.IsFloat() {
+			add("digit-outside-the-base/-0b12", "-0b12")
+			add("digit-outside-the-base/+0o78", "+0o78")
+		}
+	}
+	switch {
 	case k == ref.L:
 		add("list/number-child", "5")
 		add("list/bool-child", "T")
